@@ -19,21 +19,24 @@ def scratch_dir():
     return _SCRATCH
 
 
-def engine_json(chars, height=16, blur=0, max_line_width=None):
+def engine_json(chars, height=16, blur=0, max_line_width=None, embed_num=None, embed_id=None):
     """writes <scratch>/ocr_<key>.json + TorchScript checkpoint; returns the json path."""
     import torch
-    from vlib.stub_nets import TableNet
-    key = (tuple(chars), height, blur, max_line_width)
+    from vlib.stub_nets import TableNet, TableNetEmb
+    key = (tuple(chars), height, blur, max_line_width, embed_num, embed_id)
     if key in _ENGINE_FILES:
         return _ENGINE_FILES[key]
     d = scratch_dir()
     name = "ocr_%d" % len(_ENGINE_FILES)
-    net = torch.jit.script(TableNet(len(chars) + 1, blur))
+    net = torch.jit.script(TableNet(len(chars) + 1, blur) if embed_num is None else TableNetEmb(len(chars) + 1, embed_num))
     net.save(os.path.join(d, name + ".pt.cpu"))
     cfg = dict(line_px_height=height, line_vertical_scale=1.0, checkpoint=name + ".pt", characters=list(chars),
                net_name="verif-table-stub")
     if max_line_width:
         cfg["max_line_width"] = max_line_width
+    if embed_num is not None:
+        cfg["embed_num"] = embed_num
+        cfg["embed_id"] = embed_id
     p = os.path.join(d, name + ".json")
     with open(p, "w", encoding="utf8") as f:
         json.dump(cfg, f)
